@@ -24,11 +24,13 @@ import (
 	"fmt"
 	"io"
 	"net"
+	"os"
 	"runtime"
 	"strconv"
 	"strings"
 	"sync"
 	"sync/atomic"
+	"syscall"
 	"time"
 
 	"github.com/go-logr/logr"
@@ -48,8 +50,34 @@ type fakeConn struct {
 	buf     []byte
 	closeCh chan struct{}
 	once    sync.Once
-	failing atomic.Bool
+	failing atomic.Pointer[error] // the error every Write returns from now on (nil: writes succeed)
 	closed  atomic.Bool
+}
+
+type timeoutErr struct{}
+
+func (timeoutErr) Error() string   { return "i/o timeout" }
+func (timeoutErr) Timeout() bool   { return true }
+func (timeoutErr) Temporary() bool { return false }
+
+// writeErrOf builds one representative of every class of write error closeOnWriteErr distinguishes.
+func writeErrOf(cls string) error {
+	op := func(e error) error {
+		return &net.OpError{Op: "write", Net: "tcp", Source: fakeAddr{}, Addr: fakeAddr{}, Err: e}
+	}
+	switch cls {
+	case "p":
+		return io.ErrClosedPipe
+	case "e":
+		return op(os.NewSyscallError("write", syscall.EPIPE))
+	case "r":
+		return op(os.NewSyscallError("write", syscall.ECONNRESET))
+	case "c":
+		return op(net.ErrClosed)
+	case "t":
+		return op(timeoutErr{})
+	}
+	return errors.New("injected write failure")
 }
 
 type fakeAddr struct{}
@@ -85,8 +113,8 @@ func (f *fakeConn) Write(p []byte) (int, error) {
 	if f.closed.Load() {
 		return 0, io.ErrClosedPipe
 	}
-	if f.failing.Load() {
-		return 0, errors.New("injected write failure")
+	if e := f.failing.Load(); e != nil {
+		return 0, *e
 	}
 	return len(p), nil
 }
@@ -196,8 +224,9 @@ func (w *world) api(a string) string {
 		return resOf(w.conn.BufferPayload([]byte{0x00, 0, 0, 0, 4}))
 	case "fl":
 		return resOf(w.conn.Flush())
-	case "fn":
-		w.fc.failing.Store(true)
+	case "fn", "fnp", "fne", "fnr", "fnc", "fnt":
+		e := writeErrOf(a[2:])
+		w.fc.failing.Store(&e)
 		return "-"
 	case "gc":
 		if !netmc.Closed(w.conn) {
@@ -346,6 +375,10 @@ func runScn(hspecs []string, active string, events []string) string {
 				}
 			}
 		}
+		// snapshot while the read side is still parked: teardown count / closed
+		w.mu.Lock()
+		pre := fmt.Sprintf("%d/%d", len(w.disc), b2i(netmc.Closed(w.conn)))
+		w.mu.Unlock()
 		if !eofSent {
 			w.finish()
 		}
@@ -363,7 +396,7 @@ func runScn(hspecs []string, active string, events []string) string {
 		if r == "" {
 			r = "-"
 		}
-		return fmt.Sprintf("res=%s disc=%s handled=%d panics=%d closed=%d escaped=%d", r, d,
+		return fmt.Sprintf("res=%s pre=%s disc=%s handled=%d panics=%d closed=%d escaped=%d", r, pre, d,
 			w.handled.Load(), w.panics.Load(), b2i(netmc.Closed(w.conn)), b2i(w.escaped.Load()))
 	})
 }
@@ -413,9 +446,9 @@ func runPar(hspecs []string, active string, threads [][]string, script string, y
 
 // ---------- generators ----------
 
-var mainApis = []string{"ck", "cu", "cw", "wp", "wr", "bp", "bl", "fl", "fn", "gc"}
-var pktApis = []string{"ck", "cu", "cw", "wp", "wr", "bp", "bl", "fl", "gc", "fn"}
-var discApis = []string{"gc", "wp", "wr", "bp", "bl", "cw", "fn"}
+var mainApis = []string{"ck", "cu", "cw", "wp", "wr", "bp", "bl", "fl", "fn", "fnp", "fne", "fnr", "fnc", "fnt", "gc", "wp", "wr", "fl"}
+var pktApis = []string{"ck", "cu", "cw", "wp", "wr", "bp", "bl", "fl", "gc", "fn", "fnr", "fnc"}
+var discApis = []string{"gc", "wp", "wr", "bp", "bl", "cw", "fn", "fnr"}
 
 func genApis(r *hx.Rng, pool []string, nh, max int) string {
 	n := r.Intn(max + 1)
@@ -476,6 +509,18 @@ func main() {
 		{[]string{"ck/-"}, "0", "r:p r:p m:wp m:ck"},
 		{[]string{"-/gc,wp,bp,cw"}, "0", "m:cw m:wp"},
 		{[]string{"fn,wp/-", "-/-"}, "0", "r:p m:sh1 r:p m:bp r:e"},
+		// every class of write error, read side parked, every entry point that reaches closeOnWriteErr
+		{[]string{"-/-"}, "0", "m:fn m:wp m:wp m:bp"},
+		{[]string{"-/-"}, "0", "m:fnp m:wp m:wp m:bp"},
+		{[]string{"-/-"}, "0", "m:fne m:wr m:wp m:bl"},
+		{[]string{"-/-"}, "0", "m:fnr m:wp m:wp m:bp"},
+		{[]string{"-/-"}, "0", "m:fnr m:wr m:wr m:cw"},
+		{[]string{"-/-"}, "0", "m:bp m:fnr m:fl m:wp"},
+		{[]string{"-/-"}, "0", "m:fnc m:wp m:wp m:bl"},
+		{[]string{"-/-"}, "0", "m:bl m:fnc m:fl m:wr"},
+		{[]string{"-/-"}, "0", "m:fnt m:wp m:wp m:bp"},
+		{[]string{"-/-"}, "-", "m:fnr m:wp m:wp"},
+		{[]string{"fnr,wp/-"}, "0", "r:p m:wp m:bp"},
 		{[]string{"-/ck"}, "0", "m:ck m:wp"}, // Disconnected re-closes its own connection: deadlock
 		{[]string{"-/fl"}, "0", "m:ck m:wp"}, // Disconnected flushes its own (closed) connection: deadlock
 		{[]string{"-/fl"}, "0", "r:p r:e"},   // same, teardown started by the read loop ending
